@@ -294,6 +294,9 @@ def run(repo: Repo, tier: str) -> Report:
             det = f"scratch array `{a}` is first touched by `{norm_stmt(st)}` which does not overwrite it completely: data of the previous pixel leaks"
         rep.ob("R-LOOPCARRY", k.file, name, "nothing is carried from one pixel (time step) to the next", ok, det, pix)
 
+    # ---------------------------------------------------------------- layout independence of the compiled inner loops
+    from ..rules import nb_layout
+    rep.floor("gufunc kernels checked for declared layouts", nb_layout(rep, kernels, rule="R-LAYOUT"), 14)
     # ---------------------------------------------------------------- 5. R-PRANGE
     pk = [k for k in kernels.values() if k.parallel]
     rep.floor("parallel kernels", len(pk), 1)
